@@ -444,6 +444,7 @@ fn main() {
         "relayout" => files::relayout_requests(&mut ctx, &mut rng),
         "compose" => files::compose_requests(&mut ctx, &mut rng),
         "dir" => dirs::dir_requests(&mut ctx, &mut rng),
+        "threads" => dirs::thread_requests(&mut ctx, &mut rng),
         "render" => render::render_requests(&mut ctx, &mut rng),
         "replay" => {
             // re-run the implementation on the request lines of a replay file (first field decides)
